@@ -8,8 +8,9 @@
  *        dup                   B = spif_url_dup(A)
  *        reparse <lk>          B = spif_url_new_from_str(SPIF_STR(A)) under lookup outcome lk
  *        b_del | del | adopt
- * lk:    [P,0] protocol word is an IP protocol; [T,p] tcp service with port p; [U,p] udp service;
- *        [N,0] neither; [X,p] service found but its protocol is unknown (robustness runs only)
+ * lk:    [ip,0] protocol word is an IP protocol; [tcp,p] tcp service with port p; [udp,p] udp service;
+ *        [no,0] neither; [svx,p] service found but its protocol is unknown (robustness runs only)
+ *        (kept as its first letter i/t/u/n/s in lk_kind)
  * State token: {a={c=[o1..o7],live=T|F,t=[codes]},b={...}}  o = [] (absent) | [[codes]]
  *
  * getprotobyname/getservbyname are interposed at link time (-Wl,--wrap=...): the outcome is a pure function of the
@@ -23,15 +24,19 @@ static spif_url_t A, B;
 static char invmsg[512];
 
 /* ---- environment ---------------------------------------------------------------------------- */
-static int lk_kind = 'N';
+static int lk_kind = 'n';
 static int lk_port = 0;
 static long lk_calls = 0;
+
+static char sproto_tcp[] = "tcp", sproto_udp[] = "udp";     /* the s_proto texts handed out with a service entry */
 
 struct protoent *__wrap_getprotobyname(const char *name) {
     static struct protoent pe; static char *noalias[1] = { NULL }; static char nm[64];
     lk_calls++;
     if (!name) return NULL;
-    if (lk_kind == 'P' || ((lk_kind == 'T' || lk_kind == 'U') && (!strcmp(name, "tcp") || !strcmp(name, "udp")))) {
+    /* "ip": every word is a protocol.  "tcp"/"udp": the URL's word is not, but the protocol named by the service entry
+     * (recognised by identity, so that a URL whose word happens to be "tcp" is still "not a protocol") is. */
+    if (lk_kind == 'i' || ((lk_kind == 't' || lk_kind == 'u') && (name == sproto_tcp || name == sproto_udp))) {
         snprintf(nm, sizeof(nm), "%s", name);
         pe.p_name = nm; pe.p_aliases = noalias; pe.p_proto = !strcmp(name, "udp") ? 17 : (!strcmp(name, "tcp") ? 6 : 253);
         return &pe;
@@ -42,16 +47,17 @@ struct servent *__wrap_getservbyname(const char *name, const char *proto) {
     static struct servent se; static char *noalias[1] = { NULL }; static char nm[64];
     lk_calls++;
     if (!name || !proto) return NULL;
-    if (((lk_kind == 'T' || lk_kind == 'X') && !strcmp(proto, "tcp")) || (lk_kind == 'U' && !strcmp(proto, "udp"))) {
+    if (((lk_kind == 't' || lk_kind == 's') && !strcmp(proto, "tcp")) || (lk_kind == 'u' && !strcmp(proto, "udp"))) {
         snprintf(nm, sizeof(nm), "%s", name);
         se.s_name = nm; se.s_aliases = noalias; se.s_port = htons((unsigned short) lk_port);
-        se.s_proto = (char *) (lk_kind == 'U' ? "udp" : "tcp");
+        se.s_proto = lk_kind == 'u' ? sproto_udp : sproto_tcp;
         return &se;
     }
     return NULL;
 }
-static void set_lookup(const char *t) {        /* "[T,80]" */
-    lk_kind = t[1]; lk_port = atoi(t + 3);
+static void set_lookup(const char *t) {        /* "[tcp,80]" */
+    const char *c = strchr(t, ',');
+    lk_kind = t[1]; lk_port = c ? atoi(c + 1) : 0;
 }
 
 /* ---- projection ----------------------------------------------------------------------------- */
@@ -72,8 +78,6 @@ static const char *proj(spif_url_t u, const char *which, vh_sb *out) {
     static const char *fn[7] = { "proto", "user", "passwd", "host", "port", "path", "query" };
     if (SPIF_URL_ISNULL(u)) { sb_puts(out, "{c=[[],[],[],[],[],[],[]],live=F,t=[]}"); return NULL; }
     if (SPIF_OBJ_CLASS(u) != SPIF_CLASS_VAR(url)) { snprintf(invmsg, sizeof(invmsg), "%s:class_is_not_url", which); return invmsg; }
-    if (strcmp((const char *) spif_url_type(u), "!spif_url_t!") && strcmp((const char *) spif_url_type(u), "spif_url_t")
-        && !strstr((const char *) spif_url_type(u), "url")) { snprintf(invmsg, sizeof(invmsg), "%s:type()_does_not_name_url", which); return invmsg; }
     c[0] = spif_url_get_proto(u); c[1] = spif_url_get_user(u); c[2] = spif_url_get_passwd(u); c[3] = spif_url_get_host(u);
     c[4] = spif_url_get_port(u); c[5] = spif_url_get_path(u); c[6] = spif_url_get_query(u);
     sb_puts(out, "{c=[");
@@ -109,7 +113,7 @@ static const char *independent(void) {
     return NULL;
 }
 
-static void vh_begin(void) { A = B = (spif_url_t) NULL; lk_kind = 'N'; lk_port = 0; }
+static void vh_begin(void) { A = B = (spif_url_t) NULL; lk_kind = 'n'; lk_port = 0; }
 static void vh_end(void) {
     if (!SPIF_URL_ISNULL(B)) { spif_url_del(B); B = (spif_url_t) NULL; }
     if (!SPIF_URL_ISNULL(A)) { spif_url_del(A); A = (spif_url_t) NULL; }
@@ -149,9 +153,11 @@ static const char *vh_step(const vh_step_t *st, vh_sb *ret, vh_sb *state) {
     } else if (OP("unparse")) {
         sb_bool(ret, spif_url_unparse(A));
     } else if (OP("dup")) {
-        lk_kind = 'T'; lk_port = 4444;             /* a copy must not depend on the environment */
+        lk_kind = 't'; lk_port = 4444;             /* a copy must not depend on the environment */
         B = spif_url_dup(A);
         if (SPIF_URL_ISNULL(B)) return "dup=NULL";
+        if (SPIF_OBJ_CLASS(B) != SPIF_OBJ_CLASS(A)) return "dup_class_differs";
+        if (spif_url_type(B) != spif_url_type(A)) return "dup_type_differs";
         sb_bool(ret, 1);
     } else if (OP("reparse")) {
         set_lookup(st->args[0]);
